@@ -1,6 +1,6 @@
 """C03: decided on the emitted netlist by the certified checker chk_C03 (Coq, extracted);
 families of descriptions -> real floogen -> fail-closed reader -> checker.  See netprops.py."""
-from harness import netprops, spec
+from harness import netprops, spec, families
 
 ID = "C03"
 PROPS = "theories/Props/C03.v"
@@ -12,7 +12,7 @@ def nontrivial(d, t, r):
 
 
 def run(tier, seed, rep, replay=None):
-    netprops.standard_run(ID, tier, seed, rep, replay, ALGOS, nontrivial,
+    netprops.standard_run(ID, tier, seed, rep, replay, ALGOS, nontrivial, extra_cases=families.detour_suite, rule=
                           "families star/mesh/mesh_plus/tree/custom x algorithms " + str(ALGOS) + " x axi/narrow-wide, "
                           "exhaustive declaration-order permutations for small stars, seeded random otherwise; "
                           "non-trivial = SRC-routed description whose longest route crosses at least two routers or has three endpoints")
